@@ -175,7 +175,7 @@ def judgeTrace (kind : String) (exp : List ExpEnt) (got : List TraceEnt) : List 
       (if e.obj ≠ g.ob then [s!"trace-entry kind={kind} i={i} field=obj expected={e.obj} got={g.ob}"] else []) ++
       (if e.file ≠ g.file then [s!"trace-entry kind={kind} i={i} field=file expected={e.file} got={g.file}"] else []) ++
       (if g.line < e.lo ∨ e.hi < g.line then
-         [s!"trace-line kind={kind} i={i} expected={e.lo}-{e.hi} got={g.line}{if (e.lo - g.line) % 65536 = 0 then " wrap16" else ""}"] else []) ++
+         [s!"trace-line kind={kind} i={i} expected={e.lo}-{e.hi} got={g.line}{if (e.lo - g.line) % (lineMod : Int) = 0 then " wrap16" else ""}"] else []) ++
       go (i + 1) es' gs'
     | _, _ => []
   go 0 exp real
@@ -183,7 +183,7 @@ def judgeTrace (kind : String) (exp : List ExpEnt) (got : List TraceEnt) : List 
 def judgeEh (e : Expect) (r : EhRec) : List String :=
   (if e.file ≠ r.file then [s!"eh-file kind={e.kind} expected={e.file} got={r.file}"] else []) ++
   (if r.line < e.lo ∨ e.hi < r.line then
-     [s!"eh-line kind={e.kind} expected={e.lo}-{e.hi} got={r.line}{if (e.lo - r.line) % 65536 = 0 then " wrap16" else ""}"] else []) ++
+     [s!"eh-line kind={e.kind} expected={e.lo}-{e.hi} got={r.line}{if (e.lo - r.line) % (lineMod : Int) = 0 then " wrap16" else ""}"] else []) ++
   (if e.program ≠ r.program then [s!"eh-prog kind={e.kind} expected={e.program} got={r.program}"] else []) ++
   (if e.object ≠ r.object then [s!"eh-object kind={e.kind} expected={e.object} got={r.object}"] else []) ++
   judgeTrace e.kind e.trace r.trace
